@@ -73,18 +73,32 @@ var fwdNames = [3]string{"X-Forwarded-For", "X-Forwarded-Proto", "X-Forwarded-Ho
 
 // Probe is an HTTP handler placed before reverse_proxy.
 type Probe struct {
-	Omit []string `json:"omit,omitempty"`
+	Omit   []string `json:"omit,omitempty"`
+	Ranges []string `json:"ranges,omitempty"` // evaluated with the real `client_ip` matcher (ip_matchers.go)
+
+	cm *caddyhttp.MatchClientIP
 }
 
-func (Probe) CaddyModule() caddy.ModuleInfo {
+func (p *Probe) Provision(ctx caddy.Context) error {
+	if len(p.Ranges) > 0 {
+		p.cm = &caddyhttp.MatchClientIP{Ranges: p.Ranges}
+		return p.cm.Provision(ctx)
+	}
+	return nil
+}
+
+func (*Probe) CaddyModule() caddy.ModuleInfo {
 	return caddy.ModuleInfo{ID: "http.handlers.verif_c10_probe", New: func() caddy.Module { return new(Probe) }}
 }
 
-func (p Probe) ServeHTTP(w http.ResponseWriter, r *http.Request, next caddyhttp.Handler) error {
+func (p *Probe) ServeHTTP(w http.ResponseWriter, r *http.Request, next caddyhttp.Handler) error {
 	if o, ok := r.Context().Value(obsKey{}).(*obs); ok {
 		o.probed = true
 		o.clientIP, _ = caddyhttp.GetVar(r.Context(), caddyhttp.ClientIPVarKey).(string)
 		o.trusted, _ = caddyhttp.GetVar(r.Context(), caddyhttp.TrustedProxyVarKey).(bool)
+		if p.cm != nil {
+			o.matchedIP = p.cm.Match(r)
+		}
 	}
 	for _, n := range p.Omit {
 		r.Header[n] = nil
@@ -115,7 +129,7 @@ var registerOnce sync.Once
 
 func register() {
 	registerOnce.Do(func() {
-		caddy.RegisterModule(Probe{})
+		caddy.RegisterModule(&Probe{})
 		caddy.RegisterModule(Capture{})
 	})
 }
@@ -455,6 +469,13 @@ func (p *prop) Finish(s *core.Session) {
 	}
 }
 
+// matcherRanges is what the probe's `client_ip` matcher is configured with.
+func (k *kase) matcherRanges() []string {
+	out := append([]string{}, k.srvT...)
+	out = append(out, k.hT...)
+	return append(out, "10.0.0.0/8", "2001:db8::/32", "::1")
+}
+
 func (k *kase) cfgKey() string {
 	return fmt.Sprintf("%s|%s|%d|%s|%v", listField(k.srvT, k.srvTNil, false), listField(k.cih, k.cihNil, true), k.strict,
 		listField(k.hT, false, false), k.omit)
@@ -490,6 +511,7 @@ func (p *prop) server(k *kase) (*caddyhttp.Server, error) {
 	if omit != nil {
 		probe["omit"] = omit
 	}
+	probe["ranges"] = k.matcherRanges()
 	rp := map[string]any{
 		"handler":   "reverse_proxy",
 		"transport": map[string]any{"protocol": "verif_c10"},
